@@ -356,16 +356,17 @@ def run(ctx: Ctx) -> int:
 
     ctx.log(f"labelled-rows section done at {time.time() - ctx.t0:.1f}s")
     # ================================================================== 3. real samplers on the grid
-    noisy_det = ("H 0\nCX 0 1\nCX 0 2\nX_ERROR(0.3) 1\nDEPOLARIZE1(0.2) 2\nM 0 1 2\nDETECTOR rec[-1] rec[-2]\nDETECTOR rec[-2] rec[-3]\n"
-                 "DETECTOR rec[-1]\nOBSERVABLE_INCLUDE(0) rec[-3]\nOBSERVABLE_INCLUDE(1) rec[-1] rec[-3]")
-    noisy_meas = "H 0\nCX 0 1\nCX 0 2\nX_ERROR(0.3) 1\nT 2\nH 2\nM 0 1 2"
-    ND, NO = 3, 2
+    # small circuits on purpose: every new batch shape costs ~1 s of XLA compilation per connected component
+    noisy_det = ("H 0\nT 0\nH 0\nCX 0 1\nX_ERROR(0.3) 1\nM 0 1\nDETECTOR rec[-2]\nDETECTOR rec[-1]\n"
+                 "OBSERVABLE_INCLUDE(0) rec[-1] rec[-2]")
+    noisy_meas = "H 0\nT 0\nH 0\nCX 0 1\nX_ERROR(0.3) 1\nM 0 1 0"
+    ND, NO, NM = 2, 1, 3
     seed = rng.getrandbits(30)
     dA = tsim.Circuit(noisy_det).compile_detector_sampler(seed=seed)      # flags applied
     dB = tsim.Circuit(noisy_det).compile_detector_sampler(seed=seed)      # twin: raw matrix
     mA = tsim.Circuit(noisy_meas).compile_sampler(seed=seed)
     if quick:
-        special = (1, 2, 3, 8, 21, 40)
+        special = (1, 2, 3, 8, 40)
         sweep = [(s, b) for s in range(1, 41) for b in batch_sizes(s)
                  if b in (7, 64) or s in special or (b in (1, 2, 3) and s <= 10)]
     else:
@@ -405,10 +406,10 @@ def run(ctx: Ctx) -> int:
         # measurement sampler
         r1 = mA.sample(s, batch_size=b)
         ctx.count(("sweep-meas", s, b), nontrivial=True, bucket="sweep-measurement")
-        if not (isinstance(r1, np.ndarray) and r1.shape == (s, 3) and r1.dtype == np.bool_):
+        if not (isinstance(r1, np.ndarray) and r1.shape == (s, NM) and r1.dtype == np.bool_):
             if limited("rows"):
                 ctx.violation(f"rows-shots{s}-batch{b}", f"measurement sampler sample({s}, batch_size={b}) returned shape {getattr(r1, 'shape', None)} "
-                              f"dtype {getattr(r1, 'dtype', None)}, expected {(s, 3)} bool",
+                              f"dtype {getattr(r1, 'dtype', None)}, expected {(s, NM)} bool",
                               {"kind": "sweep", "sampler": "measurement", "circuit": noisy_meas, "seed": seed, "shots": s, "batch_size": b})
     ctx.cov["distinct_raw_rows_seen"] = len(seen_rows)
     if model_usable and model_cases:
@@ -490,7 +491,7 @@ def run(ctx: Ctx) -> int:
              "Coq model vs Coq spec; rows: the full grid shots 1..40 x batch {1,2,3,7,shots-1,shots,shots+1,64} plus batch_size=None "
              "with labelled batches (provenance of every row) vs Coq model vs k//b,k%b; real noisy samplers (detector with rotating "
              "flag combinations, measurement) on the grid (quick: batch sizes {7,64} for every shots, {1,2,3} for shots <= 10, all eight for "
-             "shots in {1,2,3,8,21,40}; thorough: full grid) vs the contract applied to the twin sampler's raw matrix and vs the Coq "
+             "shots in {1,2,3,8,40}; thorough: full grid) vs the contract applied to the twin sampler's raw matrix and vs the Coq "
              "model; bit_packed vs np.packbits(little) at the same seed; packbits model vs numpy for widths 0..19,31..33,64,65. "
              "non-trivial = both detectors and observables present (flags), batch < shots and not a divisor (rows), width not a "
              "multiple of 8 (pack). All random choices from VERIF_SEED.",
